@@ -39,7 +39,7 @@ ASSUMPTIONS = [
     'parse_table(json, ids) is not required to refuse unknown ids',
 ]
 ANCHORS = ['Table.from_hdf5', 'parse_biom_table', 'direct_parse_key', 'direct_slice_data', '_direct_slice_data_sparse_obs', '_direct_slice_data_sparse_samp', 'get_axis_indices', '_subset_table']
-REQUIRED = ['hdf5_files_with_stored_zeros', 'empty_request_answered', 'hdf5_default', 'hdf5_no_metadata', 'json_parse_table',
+REQUIRED = ['list_category_with_null_entries', 'hdf5_files_with_stored_zeros', 'empty_request_answered', 'hdf5_default', 'hdf5_no_metadata', 'json_parse_table',
             'cli_hdf5', 'cli_json', 'cli_json_serialisations_agree',
             'unknown_refused_hdf5', 'unknown_refused_hdf5_nomd',
             'unknown_refused_cli', 'other_axis_vectors_dropped',
@@ -155,6 +155,16 @@ def run_case(ctx, index):
                         allow_empty_text=True,
                         id_classes=['reserved'] if index % 10 in (3, 4)
                         and r.random() < .5 else None)
+    # a list-valued category may be unknown (None) for some ids, also for
+    # all the ids a request names
+    for md_ in (spec.obs_md, spec.samp_md):
+        if md_ and len(md_) > 1 and r.random() < .25:
+            for k_ in [k_ for k_, v_ in md_[0].items()
+                       if isinstance(v_, list)]:
+                for q in r.sample(range(len(md_)), r.randint(1,
+                                                             len(md_) - 1)):
+                    md_[q][k_] = None
+                ctx.count('list_category_with_null_entries')
     variant = ['hdf5', 'hdf5-nomd', 'json', 'cli-hdf5', 'cli-json'][index % 5]
     axis = r.choice(['sample', 'observation'])
     ids = spec.ids(axis)
